@@ -289,8 +289,19 @@ def rule_traverse(prog):
                         "is a product whose own right operand is missing) is not found, the expression is reused and its diagnostic disappears"
                         % f["name"], (kind,))
         # ---- enum matches
+        # (a closure that only names the AstInfo of a node for somebody else - `|p| match p { Valid { info, .. } => Some(info), Error(_) => None }`
+        #  handed to a helper - is a projection, not a walk)
+        proj_ids = set()
+        for cl_, cps_ in hir.walk(b["body"]):
+            if cl_.get("k") == "Closure" and cps_ and cps_[-1].get("k") == "Call":
+                bt_ = c.tstr(hir.strip(cl_["body"])["t"])
+                if "AstInfo" in bt_ and "String" not in bt_:
+                    for x_ in hir.nodes(cl_["body"]):
+                        proj_ids.add(id(x_))
         for m in hir.nodes(b["body"], "Match"):
             if m["src"] != "match" or "matches!" in (m.get("mx") or []):
+                continue
+            if id(m) in proj_ids:
                 continue
             # a match whose subject is also handed on whole (x.fmt(..), x.errors()) is an accessor, not the dispatch
             root = _root_local(m["scrut"])
